@@ -143,6 +143,19 @@ func dotReplay(in io.Reader, raw bool, args []string) (*Summary, error) {
 				sum.viol("panic", c, "panic: %v", r)
 			}
 		}()
+		// the model's "ordinary character" (code 9) stands for every byte the rules do not mention: also bytes that are not
+		// valid UTF-8 on their own (Latin-1 text, a truncated sequence) - quoting is byte for byte
+		if strings.Contains(s, "a") {
+			for _, ord := range []string{"\xff", "\xc3", "\xe9", "\u00e9", "\x80"} {
+				s2, want2 := strings.ReplaceAll(s, "a", ord), strings.ReplaceAll(want, "a", ord)
+				sum.Checks++
+				if got := graphout.DotString(s2); got != want2 {
+					sum.viol("DotString", c, "DotString(%q)=%q want %q", s2, got, want2)
+				} else if un, used := dotUnquote(got); used != len(got) || un != s2 {
+					sum.viol("DotString", c, "DotString(%q)=%q unescapes to %q", s2, got, un)
+				}
+			}
+		}
 		sum.Checks++
 		if got := graphout.DotString(s); got != want {
 			sum.viol("DotString", c, "DotString(%q)=%q want %q", s, got, want)
